@@ -122,32 +122,147 @@ Section Model.
     | Hang => [DHang]
     end.
 
-  (* the same observations computed with an accumulator (constant stack after extraction; the
-     driver runs histories of several 10^5 operations), each paired with allocated() after
-     the operation for the detail line of the driver; map fst (run_trace ..) = run .. is
-     proved in Proofs.v *)
-  Fixpoint trace_acc (predef : list N) (s : st) (ops : list dop) (acc : list (dobs * N))
-    : list (dobs * N) :=
+  (* ---- the functions the driver executes -----------------------------------------------------
+     C18arr's [step] gives every chain walk the fuel [fuel_of s] = N.to_nat (nid s), a unary
+     number that is rebuilt on every operation, and its resize loops convert their unary loop
+     counter to a binary number on every iteration (N.of_nat j: quadratic in the table length) -
+     hours for a history of 10^5 entries.  The driver therefore runs the same container
+     functions (find_index, at_index, clear, rehash_chain, find_chain of C18arr/Model.v, and
+     copies of add_key / add_new / resize whose two bucket loops carry the binary counter along)
+     with a fuel that is threaded through the history and grows by one with every Add, and an
+     accumulator instead of non-tail recursion.  The copies are proved equal to the originals and
+     map fst (run_trace ..) = run .. (Proofs.v, theorem C17_driver_functions). *)
+
+  (* rehash_buckets with a = N.of_nat i carried along *)
+  Fixpoint rehash_buckets_q (fuel : nat) (i : nat) (a : N) (oldt : N) (s : st) : out st :=
+    match i with
+    | O => Ok s
+    | S j => let b := N.pred a in
+             bind (rehash_chain hash fuel s (get (cells s) (oldt + b)))
+                  (rehash_buckets_q fuel j b oldt)
+    end.
+
+  (* copy_rev with a = N.of_nat i carried along *)
+  Fixpoint copy_rev_q (i : nat) (a : N) (oldr : N) (s : st) : st :=
+    match i with
+    | O => s
+    | S j => let b := N.pred a in
+             copy_rev_q j b oldr
+               (set_cells s (set (cells s) (rev1 s + b) (get (cells s) (oldr + b))))
+    end.
+
+  Definition resize_q (fuel : nat) (s : st) (n : N) : out st :=
+    if n =? 0 then Undef
+    else
+      let t := brk s in
+      let s1 := mkSt (cells s) t (t + n) n n (cnt s) (ekey s) (enext s) (eidx s) (elive s)
+                     (nid s) (t + 2 * n) in
+      bind (rehash_buckets_q fuel (N.to_nat (tlen s)) (tlen s) (tbl s) s1)
+           (fun s2 => Ok (copy_rev_q (N.to_nat (N.min (tlen s) n)) (N.min (tlen s) n) (rev1 s) s2)).
+
+  Definition add_new_q (fuel : nat) (s : st) (k idx : N) : out (st * N) :=
+    bind (if thr s <=? cnt s
+          then bind (resize_q fuel s (next_len (tlen s))) (fun s1 => Ok (s1, bucket hash s1 k))
+          else Ok (s, idx))
+         (fun p =>
+            let s1 := fst p in
+            let a := tbl s1 + snd p in
+            let c := cnt s1 + 1 in
+            let e := nid s1 in
+            let nx0 := set (enext s1) e None in
+            let c1 := match get (cells s1) 0 with
+                      | None => set (cells s1) 0 (Some e)
+                      | Some _ => cells s1
+                      end in
+            let nx1 := match get (cells s1) 0 with
+                       | None => set nx0 e None
+                       | Some _ => set nx0 e (get (cells s1) a)
+                       end in
+            let c2 := set c1 a (Some e) in
+            let c3 := set c2 (rev1 s1 + (c - 1)) (Some e) in
+            Ok (mkSt c3 (tbl s1) (rev1 s1) (tlen s1) (thr s1) c
+                     (set (ekey s1) e k) nx1 (set (eidx s1) e c) (set (elive s1) e true)
+                     (e + 1) (brk s1), e)).
+
+  Definition add_key_q (fuel : nat) (s : st) (k : N) : out (st * N) :=
+    let idx := bucket hash s k in
+    bind (find_chain fuel s (get (cells s) (tbl s + idx)) k)
+         (fun r => match r with
+                   | Some x => Ok (s, x)
+                   | None => add_new_q fuel s k idx
+                   end).
+
+  Definition stepf (fuel : nat) (s : st) (o : op) : out (st * res) :=
+    match o with
+    | OAdd k => bind (add_key_q fuel s k)
+                     (fun p => Ok (fst p, RIdx (get (eidx (fst p)) (snd p))))
+    | OFind k => bind (find_index hash fuel s k) (fun i => Ok (s, RIdx i))
+    | OAt i => bind (at_index s i) (fun v => Ok (s, RKey v))
+    | OResize n =>
+        if (n =? 0) || (n <? cnt s) || (max_len <? n) then Undef
+        else bind (resize_q fuel s n) (fun s' => Ok (s', RUnit))
+    | OClear => bind (clear fuel s) (fun s' => Ok (s', RUnit))
+    | _ => step hash s o
+    end.
+
+  Definition presizef (fuel : nat) (s : st) (n : N) : out st :=
+    if tlen s <? cnt s + n
+    then bind (stepf fuel s (OResize (cnt s + n))) (fun p => Ok (fst p))
+    else Ok s.
+
+  Fixpoint add_allf (fuel : nat) (s : st) (ts : list N) : out st :=
+    match ts with
+    | [] => Ok s
+    | t :: ts' => bind (stepf fuel s (OAdd t)) (fun p => add_allf (S fuel) (fst p) ts')
+    end.
+
+  Definition init_constf (fuel : nat) (predef : list N) (s : st) : out st :=
+    bind (presizef fuel s (N.of_nat (length predef))) (fun s1 => add_allf fuel s1 predef).
+
+  Definition dstepf (fuel : nat) (predef : list N) (s : st) (o : dop) : out (st * res) :=
+    match o with
+    | OIntern t => stepf fuel s (OAdd t)
+    | OLookup t => stepf fuel s (OFind t)
+    | OText i => stepf fuel s (OAt i)
+    | OPresize n => bind (presizef fuel s n) (fun s' => Ok (s', RUnit))
+    | OReset => bind (stepf fuel s OClear)
+                     (fun p => bind (init_constf fuel predef (fst p)) (fun s' => Ok (s', RUnit)))
+    end.
+
+  (* enough fuel for the state after the operation: one more per Add *)
+  Definition next_fuel (predef : list N) (fuel : nat) (o : dop) : nat :=
+    match o with
+    | OIntern _ => S fuel
+    | OReset => (length predef + fuel)%nat
+    | _ => fuel
+    end.
+
+  (* observation and allocated() after every operation *)
+  Fixpoint trace_acc (predef : list N) (fuel : nat) (s : st) (ops : list dop)
+           (acc : list (dobs * N)) : list (dobs * N) :=
     match ops with
     | [] => rev_append acc []
     | o :: ops' =>
-        match dstep predef s o with
-        | Ok p => trace_acc predef (fst p) ops' ((DObs (snd p) (cnt (fst p)), tlen (fst p)) :: acc)
+        match dstepf fuel predef s o with
+        | Ok p => trace_acc predef (next_fuel predef fuel o) (fst p) ops'
+                            ((DObs (snd p) (cnt (fst p)), tlen (fst p)) :: acc)
         | Undef => rev_append acc [(DUndef, 0)]
         | Hang => rev_append acc [(DHang, 0)]
         end
     end.
 
+  Definition startf (predef : list N) : out st := init_constf O predef init.
+
   Definition run_trace (predef : list N) (ops : list dop) : list (dobs * N) :=
-    match start predef with
-    | Ok s => trace_acc predef s ops []
+    match startf predef with
+    | Ok s => trace_acc predef (length predef) s ops []
     | Undef => [(DUndef, 0)]
     | Hang => [(DHang, 0)]
     end.
 
   (* size() and allocated() of the freshly constructed dictionary *)
   Definition start_shape (predef : list N) : N * N :=
-    match start predef with
+    match startf predef with
     | Ok s => (cnt s, tlen s)
     | _ => (0, 0)
     end.
